@@ -84,6 +84,9 @@ def run(ctx, report):
                     if len(fills) == 1 and not others and fills[0]["src"].k == "param" and fills[0]["src"].a[0] == 1 and fills[0]["range"][0] == 0:
                         good = True
                 raw = strip(v.a[1]["raw"])
+                if raw.k == "call" and raw.a[0].name in ("expect", "unwrap") and raw.a[0].fn.startswith("std::result::Result") and raw.a[1]:
+                    raw = strip(raw.a[1][0])  # the length is pinned by the guard decided above
+                    raw = raw if not (raw.k == "call" and raw.a[0].name in ("try_into", "try_from") and not (raw.a[1] and strip(raw.a[1][0]).k == "param" and strip(raw.a[1][0]).a[0] == 1)) else v
                 if raw.k == "deref" or (raw.k == "call" and raw.a[0].name in ("try_into", "try_from")):
                     good = True
             report.check("PARSE", "parse/copies-input", good, "the parsed id is a copy of the input bytes from offset 0", "parse does not copy the whole input into the id", fn=f.path, sp=node.sp, config=cfg)
